@@ -962,6 +962,17 @@ def _get_all_by_filters_from_db(context, filters):
         parent_rp.c.uuid.label("parent_provider_uuid"),
     ).select_from(rp_to_parent)
 
+    # Look up every trait and resource class name first: an unknown name is
+    # an error (TraitNotFound, ResourceClassNotFound) even if another filter
+    # already rules out every provider and we return early below.
+    if forbidden_traits:
+        trait_obj.ids_from_names(context, forbidden_traits)
+    for rc_name in resources:
+        context.rc_cache.id_from_string(rc_name)
+    for any_traits in required_traits:
+        for trait in any_traits:
+            context.trait_cache.id_from_string(trait)
+
     if name:
         query = query.where(rp.c.name == name)
     if uuid:
